@@ -124,6 +124,8 @@ func cmdCheck(args []string) int {
 	tier := fs.String("tier", "quick", "")
 	par := fs.Int("par", 12, "")
 	only := fs.String("only", "", "only contracts whose name contains this (debug; evidence not written)")
+	workDir := fs.String("work", "", "directory for queries and replays (default <verif>/work)")
+	writeEvidence := fs.Bool("evidence", true, "write the evidence file and replays under <verif>")
 	fs.Parse(args)
 	t0 := time.Now()
 	seed, _ := strconv.Atoi(os.Getenv("VERIF_SEED"))
@@ -247,7 +249,11 @@ func cmdCheck(args []string) int {
 		}
 	}
 	// discharge
-	work := filepath.Join(*verif, "work", *prop)
+	workBase := filepath.Join(*verif, "work")
+	if *workDir != "" {
+		workBase = *workDir
+	}
+	work := filepath.Join(workBase, *prop)
 	os.RemoveAll(work)
 	os.MkdirAll(work, 0o755)
 	var todo []*Oblig
@@ -322,6 +328,9 @@ func cmdCheck(args []string) int {
 	}
 	// known findings
 	replayDir := filepath.Join(*verif, "replays", *prop)
+	if !*writeEvidence {
+		replayDir = filepath.Join(workBase, "replays", *prop)
+	}
 	os.RemoveAll(replayDir)
 	var violations, known []*Oblig
 	knownMsg := map[*Oblig]*KnownFinding{}
@@ -432,7 +441,7 @@ func cmdCheck(args []string) int {
 		"wall_s":      round3(time.Since(t0).Seconds()),
 		"violations":  len(violations),
 	}
-	if *only == "" {
+	if *only == "" && *writeEvidence {
 		os.MkdirAll(filepath.Join(*verif, "evidence"), 0o755)
 		b, _ := json.MarshalIndent(ev, "", " ")
 		os.WriteFile(filepath.Join(*verif, "evidence", *prop+".json"), b, 0o644)
